@@ -15,7 +15,11 @@ import (
 )
 
 // SMT renders an obligation as an SMT-LIB2 script (premises, negated goal).
-func (ob *Obligation) SMT(withModel bool) string {
+func (ob *Obligation) SMT(withModel bool) string { return ob.smt(withModel, false) }
+
+// smt renders the obligation; with dropDefs the definitional unfoldings of rec spec functions are
+// left out (sound: fewer premises), which often avoids matching explosions.
+func (ob *Obligation) smt(withModel bool, dropDefs bool) string {
 	var b strings.Builder
 	all := append(append([]*Term(nil), ob.Premises...), ob.Goal)
 	if withModel {
@@ -24,6 +28,9 @@ func (ob *Obligation) SMT(withModel bool) string {
 	b.WriteString("(set-logic ALL)\n")
 	b.WriteString(Decls(all))
 	for _, p := range ob.Premises {
+		if dropDefs && ob.DefFact != nil && ob.DefFact[p.Key()] {
+			continue
+		}
 		b.WriteString("(assert " + p.Key() + ")\n")
 	}
 	b.WriteString("(assert (not " + ob.Goal.Key() + "))\n")
@@ -93,7 +100,7 @@ type cached struct {
 // Discharge runs the solvers on every obligation (in parallel).
 func Discharge(obs []*Obligation, cfg SolverCfg) {
 	if cfg.Workers <= 0 {
-		cfg.Workers = 16
+		cfg.Workers = 5
 	}
 	_ = os.MkdirAll(cfg.Dir, 0o755)
 	var wg sync.WaitGroup
@@ -107,6 +114,12 @@ func Discharge(obs []*Obligation, cfg SolverCfg) {
 			}
 		}()
 	}
+	// render sequentially first: term keys are cached in shared nodes (not safe to fill concurrently)
+	for _, ob := range obs {
+		if ob.Status == "" && ob.text == "" {
+			ob.text = ob.SMT(false)
+		}
+	}
 	for _, ob := range obs {
 		if ob.Status != "" {
 			continue
@@ -118,7 +131,11 @@ func Discharge(obs []*Obligation, cfg SolverCfg) {
 }
 
 func dischargeOne(ob *Obligation, cfg SolverCfg) {
-	text := ob.SMT(false)
+	text := ob.text
+	if text == "" {
+		text = ob.SMT(false)
+	}
+	ob.text = ""
 	ob.Size = len(text)
 	sum := sha256.Sum256([]byte(text))
 	key := hex.EncodeToString(sum[:12])
@@ -148,14 +165,63 @@ func dischargeOne(ob *Obligation, cfg SolverCfg) {
 	if ob.Cover {
 		q = time.Second
 	}
-	st, _, el := runSolver(ctx, solvers[0], file, q)
+	// z3 5.x and cvc5 in parallel: each wins on a different class of obligations
+	type q1 struct {
+		name, st string
+		el       float64
+	}
+	qctx, qcancel := context.WithCancel(ctx)
+	qc := make(chan q1, 3)
+	nq := 2
+	for _, sv := range []solverRun{solvers[0], solvers[2]} {
+		sv := sv
+		go func() {
+			a, _, el := runSolver(qctx, sv, file, q)
+			qc <- q1{sv.name, a, el}
+		}()
+	}
+	hasDefs0 := false
+	for _, p := range ob.Premises {
+		if ob.DefFact != nil && ob.DefFact[p.Key()] {
+			hasDefs0 = true
+			break
+		}
+	}
+	if hasDefs0 && !ob.Cover {
+		fileND := filepath.Join(cfg.Dir, key+".nd1.smt2")
+		_ = os.WriteFile(fileND, []byte(ob.smt(false, true)), 0o644)
+		defer os.Remove(fileND)
+		nq++
+		go func() {
+			a, _, el := runSolver(qctx, solvers[0], fileND, q+4*time.Second)
+			if a != "unsat" {
+				a = "unknown"
+			}
+			qc <- q1{"z3-new/nodefs", a, el}
+		}()
+	}
+	st, stSolver, el := "unknown", "", 0.0
+	for i := 0; i < nq; i++ {
+		r := <-qc
+		if r.el > el {
+			el = r.el
+		}
+		if r.st == "unsat" {
+			st, stSolver = "unsat", r.name
+			break
+		}
+		if r.st == "sat" && r.name == "z3-new" {
+			st, stSolver = "sat", r.name
+		}
+	}
+	qcancel()
 	total += el
 	agree := map[string]bool{}
 	if st == "unsat" {
-		agree["z3-new"] = true
+		agree[stSolver] = true
 	}
 	if st == "unsat" && !cfg.TwoAgree {
-		ob.Status, ob.Solver, ob.Time = "unsat", "z3-new", total
+		ob.Status, ob.Solver, ob.Time = "unsat", stSolver, total
 		solveCache.Store(key, &cached{ob.Status, ob.Solver, "", total})
 		return
 	}
@@ -178,7 +244,15 @@ func dischargeOne(ob *Obligation, cfg SolverCfg) {
 		el            float64
 	}
 	rctx, cancel := context.WithCancel(ctx)
-	rc := make(chan res, len(solvers))
+	nruns := len(solvers)
+	hasDefs := false
+	for _, p := range ob.Premises {
+		if ob.DefFact != nil && ob.DefFact[p.Key()] {
+			hasDefs = true
+			break
+		}
+	}
+	rc := make(chan res, 2*len(solvers))
 	for _, s := range solvers {
 		s := s
 		go func() {
@@ -186,9 +260,26 @@ func dischargeOne(ob *Obligation, cfg SolverCfg) {
 			rc <- res{s.name, a, o, el}
 		}()
 	}
+	if hasDefs {
+		// portfolio: the same obligation without the definitional unfoldings (a subset of the premises)
+		file2 := filepath.Join(cfg.Dir, key+".nodef.smt2")
+		_ = os.WriteFile(file2, []byte(ob.smt(false, true)), 0o644)
+		defer os.Remove(file2)
+		for _, s := range solvers[:2] {
+			s := s
+			nruns++
+			go func() {
+				a, o, el := runSolver(rctx, s, file2, cfg.Full)
+				if a != "unsat" {
+					a = "unknown" // a model of fewer premises says nothing
+				}
+				rc <- res{s.name + "/nodefs", a, o, el}
+			}()
+		}
+	}
 	final, fsolver := "unknown", ""
 	var maxEl float64
-	for i := 0; i < len(solvers); i++ {
+	for i := 0; i < nruns; i++ {
 		r := <-rc
 		if r.el > maxEl {
 			maxEl = r.el
